@@ -309,6 +309,7 @@ class World:
         self.monitors = monitors
         self.current = None
         self.seed = seed
+        self.refuse_mode = False     # True: connecting to a party that does not listen yet is refused (start() retries)
         self.seams = None
         if seed is not None:
             from mc.randseam import install_seeded
@@ -358,6 +359,7 @@ class World:
         self.close_log = []        # (party, peer, step, unfinished task names)
         self.on_close = None
         self.on_write = None
+        self.refused = 0
         if self.monitors:
             self._install_monitors()
 
@@ -450,6 +452,9 @@ class World:
         return VServer(self, party, port)
 
     async def _create_connection(self, client, factory, port):
+        if port not in self.listeners and self.refuse_mode:
+            self.refused += 1
+            raise ConnectionRefusedError(f'[virtual] connect call failed: port {port}')
         if port not in self.listeners:
             fut = self.loops[client].create_future()
             self.conn_waiters.setdefault(port, []).append((client, fut))
